@@ -28,7 +28,7 @@ COMPONENTS = {"real": ["ECAgent.Batching.grid_search", "_run_model_for_search", 
               "stub": ["multiprocessing.Pool -> simkit.simpool.SimPool", "models and score function are harness workloads"]}
 PROBES = ["mode_0", "mode_1", "mode_2", "mode_3", "mode_4", "mode_5", "mode_6", "mode_7", "tie_for_best",
           "negative_only", "single_combination", "beyond_maxsize", "optimum_first", "optimum_middle", "optimum_last",
-          "parallel_reordered", "float_scores"]
+          "parallel_reordered", "float_scores", "numpy_integer_scores"]
 TECHNIQUE = "deterministic simulation: serial vs simulated-parallel schedules of the same search, exact Fraction recomputation of every aggregate and of the best"
 LEVEL_TEXT = ("Seeded search over grids, modes, score tables and simulated pool schedules; every aggregate and the returned best "
               "are compared with an exact rational recomputation and the serial and simulated-parallel outcomes must be "
@@ -101,7 +101,7 @@ def generate(rng, tier):
     elif r < 0.6:
         scores = [list(scores[0]) for _ in range(size)]  # everything tied
     max_ts = rng.choice([None, None, rng.randint(0, 5)])
-    return {"sibling": rng.random() < 0.15, "grid": grid, "via": rng.choice(["dict", "plist"]), "reps": reps, "mode": mode, "scores": scores,
+    return {"numpy_scores": style in ("small", "neg", "mid") and rng.random() < 0.3, "sibling": rng.random() < 0.15, "grid": grid, "via": rng.choice(["dict", "plist"]), "reps": reps, "mode": mode, "scores": scores,
             "processes": rng.choice([2, 2, 3, 4, 8, 16, rng.randint(2, 16)]), "max_ts": max_ts,
             "base_stop": rng.randint(0, 4), "spread": rng.randint(1, 3), "pool": gen_pool(rng, size)}
 
@@ -148,7 +148,7 @@ def run_search(ctx, sc, processes, label):
     for i, s in enumerate(sigs):
         table.setdefault(s, sc["scores"][i % len(sc["scores"])])
     W.reset({"base_stop": sc["base_stop"], "spread": sc["spread"], "scores": table,
-             "collectors_defined": [["col0", 1]]})
+             "collectors_defined": [["col0", 1]], "numpy_scores": bool(sc.get("numpy_scores"))})
     stats = {}
     kwargs = {"processes": processes, "repetitions": int(sc["reps"]), "mode": B.ScoreMode(int(sc["mode"]) % 8)}
     if sc["max_ts"] is not None:
@@ -226,6 +226,8 @@ def execute(sc, ctx):
     if mode >= 6 and int(sc["reps"]) < 2:
         return
     ctx.probe(f"mode_{mode}")
+    if sc.get("numpy_scores"):
+        ctx.probe("numpy_integer_scores")
     combos, sigs, table, val1, _, led1 = run_search(ctx, sc, 1, "serial")
     bi, exact = check_outcome(ctx, sc, combos, sigs, table, val1, led1, "serial")
     p = max(2, int(sc["processes"]))
